@@ -13,7 +13,7 @@ MIN_DECIDED_RATIO = 0.9
 RULE = (
     "random CSV files from arbitrary cell text (unicode, embedded delimiters, both quote chars, LF in cells, ragged rows, "
     "blank records anywhere, 0-12 records of 1-6 cells) x delimiter {, ; | TAB} x quotechar {\" '} written by csv.writer; "
-    "half of the files get a nameable header row and are also run with a program capturing every column by name and by index. "
+    "a fifth of the files are read through CsvPaths().csvpath() (cold and warm cache), 6% are also registered as a named file (content A, then B, then A again) and collected by a named-paths run; half of the files get a nameable header row and are also run with a program capturing every column by name and by index. "
     "Non-trivial: the file has at least one non-blank record; distinct = distinct (file bytes, dialect, program) triples."
 )
 ASSUMPTIONS = [
@@ -41,7 +41,12 @@ def make_case(seed, shard, i):
     r = random.Random(f"{seed}:C06:{shard}:{i}")
     named = r.random() < 0.5
     recs, dialect = csvgen.arbitrary(r, named_headers=named)
-    return {"records": recs, "dialect": dialect, "named": named, "via_csvpaths": r.random() < 0.2}
+    case = {"records": recs, "dialect": dialect, "named": named, "via_csvpaths": r.random() < 0.2}
+    if r.random() < 0.06:
+        # delivered through a named file: registered, replaced by other content, registered again
+        other, _ = csvgen.arbitrary(r, named_headers=False)
+        case["named_file_other"] = other
+    return case
 
 
 def run_case(case, agg, tag):
@@ -140,6 +145,45 @@ def run_case(case, agg, tag):
             pass
 
 
+def run_named_file(case, agg):
+    """the same bytes reached through the named-files area and a named-paths run: register A, B, then A again under
+    one name and source file name; every run must deliver the records of the content registered last"""
+    from vfy import cps, env, hooks
+    from vfy.gen import csvgen
+
+    dialect = case["dialect"]
+    kw = {"delimiter": dialect["delimiter"], "quotechar": dialect["quotechar"]}
+    A = csvgen.to_bytes(case["records"], dialect)
+    B = csvgen.to_bytes(case["named_file_other"], dialect)
+    cps.reset_sandbox()
+    cs = env.new_csvpaths(**kw)
+    cs.paths_manager.add_named_paths(name="all", paths=["~ id: m ~ $[*][yes()]"])
+    for step, data in (("A", A), ("B", B), ("A again", A)):
+        oracle = [rec for rec in csvgen.parse_bytes(data, dialect) if len(rec) > 0]
+        if not oracle:
+            return None
+        cps.add_file(cs, "nf", data=data, srcname="nf.csv")
+        inst = env.new_csvpaths(**kw)
+        with hooks.recording(agg) as rec:
+            lines, exc = cps.run_method(inst, "collect_paths", "all", "nf")
+        agg.count("named_file_runs")
+        w = {"step": step, "dialect": dialect, "registered_records": oracle[:4]}
+        if exc is not None:
+            w["exc"] = f"{type(exc).__name__}: {str(exc)[:200]}"
+            return "named-file-run-raises", w
+        res = inst.results_manager.get_named_results("all")[0]
+        got = [[str(x) for x in ev["line"]] for ev in rec.lines if ev["ret"]]
+        if got != oracle:
+            w["delivered"] = got[:4]
+            return "named-file-delivers-other-records", w
+        want_h = [clean(h) for h in oracle[0]]
+        if list(res.csvpath.headers) != want_h:
+            w["headers"] = list(res.csvpath.headers)
+            w["want_headers"] = want_h
+            return "named-file-headers", w
+    return None
+
+
 def shape_of(case):
     recs = case["records"]
     kinds = []
@@ -152,7 +196,7 @@ def shape_of(case):
                 k += "e" if cell == "" else ("q" if any(ch in cell for ch in ',;|\t"\'\n') else ("u" if any(ord(ch) > 127 for ch in cell) else "a"))
             kinds.append(k)
     d = case["dialect"]
-    return f"{d['delimiter']!r}{d['quotechar']}{len(d['lineterminator'])}|{case['named']}|{case.get('via_csvpaths')}|" + "/".join(kinds)
+    return f"{d['delimiter']!r}{d['quotechar']}{len(d['lineterminator'])}|{case['named']}|{case.get('via_csvpaths')}|{case.get('named_file_other') is not None}|" + "/".join(kinds)
 
 
 def run_shard(spec, agg):
@@ -162,6 +206,8 @@ def run_shard(spec, agg):
     for i in range(spec["n"]):
         case = make_case(spec["seed"], spec["shard"], i)
         res = run_case(case, agg, f"{spec['shard']}_{i}")
+        if res is None and case.get("named_file_other") is not None:
+            res = run_named_file(case, agg)
         nontriv = any(len(r) > 0 for r in case["records"])
         if res is None:
             agg.held(shape_of(case), nontriv, sample={"records": case["records"][:4], "dialect": case["dialect"], "named_headers": case["named"]})
@@ -174,6 +220,8 @@ def replay(case, agg):
 
     hooks.install_line_hook()
     res = run_case(case, agg, "replay")
+    if res is None and case.get("named_file_other") is not None:
+        res = run_named_file(case, agg)
     if res is None:
         agg.held("replay", True)
     else:
